@@ -31,7 +31,7 @@ Safe(x) == x.out \notin {"PANIC", "HANG"}
 Ty == TypeIx(e.code)
 Pick == PickOf(Ty, e.tags)
 IsTlv == e.kind = "tlv"
-MustAccept == IF IsTlv THEN TlvMust(e.tlv.carrier, e.tlv.items, e.tlv.stray, e.ctx) ELSE Must(Ty, Pick, e.ctx)
+MustAccept == IF e.kind = "trunc" THEN FALSE ELSE IF IsTlv THEN TlvMust(e.tlv.carrier, e.tlv.items, e.tlv.stray, e.ctx) ELSE Must(Ty, Pick, e.ctx)
 Bytes == BytePreserved(e.code) /\ (IsTlv \/ ~HasPtr(Prims(Ty, Pick)))
 
 Problems ==
